@@ -42,6 +42,16 @@ func c04Gen(r *Rng) c04Input {
 	default:
 		in.Cfg = c04Cfg{Batch: r.Range(1, 20), GasLimit: uint32(r.Range(100, 100000)), Overhead: uint32(r.Range(1, 50))}
 	}
+	if r.Chance(12) { // wire values the config decoder replaces by defaults
+		switch r.Intn(3) {
+		case 0:
+			in.Cfg.Overhead = 0
+		case 1:
+			in.Cfg.GasLimit = 0
+		default:
+			in.Cfg.Batch = -r.Intn(3)
+		}
+	}
 	n := 0
 	switch r.Intn(5) {
 	case 0:
